@@ -3,7 +3,8 @@ import FinamModel.Translated.AvgOverTime__interpolate
 import FinamModel.Translated.SumOverTime__interpolate
 import FinamModel.Translated.TimeIntegrationAdapter__get_data_avg
 import FinamModel.Translated.TimeIntegrationAdapter__get_data_sum
-import FinamModel.Props.TrTime
+import FinamModel.Props.TrCommon
+import FinamModel.Props.TrTimeBase
 /-
   Equivalence of the translated `_interpolate` bodies of `AvgOverTime` / `SumOverTime` (regenerated from
   `finam/adapters/time_integration.py`) with the hand-written model `TI.avgInterp` / `TI.sumInterp` of the C12 theorems.
